@@ -9,12 +9,7 @@
 #include <vector>
 #include <dzn/pump.hh>
 
-namespace Sub { struct MyLongNamedType { int v = 0; }; }
-namespace My { template <typename T> struct Data { T v{}; }; }
-struct Incident { int id = 0; };
-struct decoy_t { int never = 0; };
-struct deeper_t { int never = 0; };
-struct type_0_t { int v = 0; }; struct type_1_t { int v = 0; }; struct type_2_t { int v = 0; }; struct type_3_t { int v = 0; };
+#include "verif_types.hh"
 
 namespace verif
 {
